@@ -599,3 +599,59 @@ Print Assumptions c07_drain_no_room.
 Print Assumptions c07_drain_no_room_two_reads.
 Print Assumptions c07_drain_no_room_run.
 Print Assumptions c07_no_room_nonvacuous.
+
+(* ================================================================== the decoder's code itself (whole functions translated from the source) *)
+(** [theories/Gen2.v] is regenerated on every run by tools/rs2coq2.py from src/util.rs (find_crlf) and src/chunk.rs (every method
+    of Dechunker, including the parse_input loop), in state-passing style: the output buffer is a byte list that is overwritten
+    in place, positions are explicit.  proofs/Gen2_equiv_chunk.v proves that translation equal to the hand-written model this file's
+    theorems are about, for every decoder state, every input and every output buffer: the generated decoder returns the model's
+    state and counts, the model's output is what it wrote at the front of the buffer, and the rest of the buffer is untouched.
+    So c07_step .. c07_run above are statements about the code as it is in the repository now, not about a transcription of it
+    (trusted: the translator, tools/rs2coq2.py; what an object is left as after an error is not translated). *)
+From Hoot Require Import GenLib Gen2.
+From Hoot.proofs Require Import Gen2_equiv_chunk.
+Theorem c07_code_find_crlf : forall b, gen_find_crlf b = find_crlf b.
+Proof. exact gen_find_crlf_eq. Qed.
+Theorem c07_code_is_ended : forall d, gen_dech_is_ended d = dech_is_ended d.
+Proof. exact gen_dech_is_ended_eq. Qed.
+Theorem c07_code_on_boundary : forall d, gen_dech_is_on_chunk_boundary d = is_on_chunk_boundary d.
+Proof. exact gen_dech_is_on_chunk_boundary_eq. Qed.
+Theorem c07_code_read_size : forall src pin pout,
+  gen_dech_read_size DSize src pin pout = lift_step DSize pin pout (read_size (drop pin src)).
+Proof. exact gen_dech_read_size_eq. Qed.
+Theorem c07_code_read_data_whole : forall lft src buf pin pout,
+  gen_dech_read_data (DChunk lft) src buf pin pout = lift_data buf pin pout (read_data lft (drop pin src) (len buf - pout)).
+Proof. exact gen_dech_read_data_eq. Qed.
+Theorem c07_code_expect_crlf : forall src pin pout,
+  gen_dech_expect_crlf DCrLf src pin pout = lift_step DCrLf pin pout (expect_crlf (drop pin src)).
+Proof. exact gen_dech_expect_crlf_eq. Qed.
+Theorem c07_code_trailer_or_ended : forall src pin pout,
+  gen_dech_trailer_or_ended DEnding src pin pout = lift_step DEnding pin pout (trailer_or_ended (drop pin src)).
+Proof. exact gen_dech_trailer_or_ended_eq. Qed.
+Theorem c07_code_trailer : forall src pin pout,
+  res_rel (gen_dech_trailer DTrailer src pin pout) (lift_step DTrailer pin pout (trailer (drop pin src))).
+Proof. exact gen_dech_trailer_rel. Qed.
+Theorem c07_code_parse_input : forall d src dst,
+  pi_rel dst (gen_dech_parse_input d src dst) (parse_input d src (len dst)).
+Proof. exact gen_parse_input_equiv. Qed.
+Theorem c07_code_parse_input_frame : forall d src dst d1 dst1 i1 o1,
+  gen_dech_parse_input d src dst = Ok (d1, dst1, (i1, o1)) ->
+  exists out, parse_input d src (len dst) = Ok (d1, i1, out) /\ o1 = len out /\ o1 <= len dst /\
+              take o1 dst1 = out /\ drop o1 dst1 = drop o1 dst /\ len dst1 = len dst.
+Proof. exact gen_parse_input_frame. Qed.
+Example c07_code_nonvacuous :
+  gen_dech_parse_input DSize (s2b "3" ++ CRLF ++ s2b "abc" ++ CRLF ++ s2b "0" ++ CRLF ++ CRLF ++ s2b "NEXT") [0; 0; 0; 0; 0]
+  = Ok (DSize, s2b "abc" ++ [0; 0], (8, 3)).
+Proof. vm_compute. reflexivity. Qed.
+
+Print Assumptions c07_code_find_crlf.
+Print Assumptions c07_code_is_ended.
+Print Assumptions c07_code_on_boundary.
+Print Assumptions c07_code_read_size.
+Print Assumptions c07_code_read_data_whole.
+Print Assumptions c07_code_expect_crlf.
+Print Assumptions c07_code_trailer_or_ended.
+Print Assumptions c07_code_trailer.
+Print Assumptions c07_code_parse_input.
+Print Assumptions c07_code_parse_input_frame.
+Print Assumptions c07_code_nonvacuous.
